@@ -13,6 +13,33 @@ checks = {
  "C02": dict(engine="E+S", tech=E + "; " + S,
    text="real StreamServe/Handle/default dialer on the in-memory network: payload-size x chunking x segmentation x address-type x cipher x coalescing grid on the default schedule, plus every schedule (deviation bound 2/3) of six who-speaks-first / who-half-closes-first scenarios with 256-byte socket buffers; oracle compares both byte streams, EOF order, status and the four byte counters",
    note="bounded payload set {0,1,16382,16383,16384,32767}; one connection per execution; vnet TCP model"),
+ "C03": dict(engine="Q+E", tech=Q + "; " + E,
+   text="all operation sequences to depth 3 (4) over a 26-operation menu of client datagrams (valid under each cipher, wrong key, other listed key on a live association, flipped, truncated, bad address, private destination, domain) and target/stranger replies on the real packet handler; oracle decides forwarding, payload integrity, source stability, attribution, reply encryption/sender address/salt freshness from the statement, association liveness is observed on the sockets; datagram and reply sizes up to the buffer limits incl. zoned IPv6 senders",
+   note="two clients, four targets; sequences run at quiescence (default schedule); sizes from a boundary set"),
+ "C04": dict(engine="Q+S", tech=Q + "; " + S,
+   text="all sequences to depth 3 (4) over three clients (same IP/different port, different IP), two targets, a stranger and clock advances with the C03 oracle plus the ownership invariant (no server socket ever carries two clients; a datagram arriving at a client's source goes to that client only); every schedule within the bound of a new datagram racing a reply and the association's expiry, and of two clients opening at once",
+   note="NAT timeout 10 s on the virtual clock; deviation bound 3 (5)"),
+ "C05": dict(engine="E", tech=E,
+   text="the real RequirePublicIP against an independent bit-level classifier over IPv4 (quick: every block boundary +-2 and six addresses per /16; thorough: all 2^32) in 4-byte and mapped form and over all 65536 IPv6 /16s x 8 tails; end to end through the real TCP handler + default dialer and the real UDP handler + default validator: every SOCKS encoding x 32 representative addresses x 17 resolver answers x packet positions 1-3, oracle on the vnet traffic log",
+   note="IPv6 by /16 prefix and tail pattern; vnet.Dialer mirrors net.Dialer's Control sequence (conformance suite)"),
+ "C07": dict(engine="Q+E+S", tech=Q + "; " + E + "; " + S,
+   text="every sequence of depth 7 (8) over {Add(h1..h5), Add(h6 colliding with h1), Resize(0..3)} from every initial capacity 0..3 on the real ReplayCache in lock-step with the statement's reference model; capacities up to 20000 with 2.5N handshakes and re-presentation; construction limits; concurrent Add/Add/Add and Add/Add/Resize under every schedule (unbounded) with the race monitor",
+   note="the cross-listener / cross-reload clauses are covered by the package-main harness (same property id) once built; checksum collisions are constructed, not searched"),
+ "C08": dict(engine="E", tech=E,
+   text="4 (100) batches x 50 complete connections per cipher through the real handler: exact pairwise freshness of the server salts within a batch, recognisability by the key's own generator, and reflection of real recorded server output (whole, extended, every truncation >= 50 bytes) with the cache nil/disabled/on: ERR_REPLAY_SERVER and probe handling (nothing written, no dial, closed at the timeout)",
+   note="crypto/rand is a deterministic DRBG per batch; aes-128 (16-byte salt) is outside the recognisability clause"),
+ "C14": dict(engine="Q", tech=Q + " on a virtual clock",
+   text="all 12^4 (12^5) sequences over {DNS / non-DNS datagrams of two clients, replies from port 53 / 80, advances of 1 s, 16 s, 17 s+, T-1 s, T+, shutdown} for NAT timeouts 300 s and 10 s on the real packet handler; reference = the statement's promise (max over datagrams of send time + 17 s / T), the server's own deadlines are read from the socket log: no early expiry, deadlines monotone, reclamation after the deadline, single-DNS fast close, prompt shutdown, one removal report per association, no leaked thread or socket",
+   note="exact virtual instants; no datagram is sent at the very instant of a deadline (open outcome)"),
+ "C15": dict(engine="E+S", tech=E + "; " + S,
+   text="every connection outcome class (OK, ERR_CIPHER, both replay kinds, ERR_READ_ADDRESS, ERR_ADDRESS_*, ERR_CONNECT, ERR_RELAY_CLIENT, ERR_RELAY_TARGET) x ciphers x sizes, singly and in sequences, with a recording TCPConnMetrics teed into the real Prometheus collectors: call multiplicity/order/status, probe bytes = bytes sent, counters vs. bytes on the vnet sockets (equal when completed, never larger), gathered counters vs. calls; pairs of concurrent connections under every schedule within the bound",
+   note="deviation bound 2 (3) for the concurrent pairs"),
+ "C16": dict(engine="Q", tech=Q,
+   text="all sequences to depth 3 (4) over the C03 menu plus clock advances with a recording UDPMetrics (every third sequence also through the real Prometheus collectors): one add/remove per association, one client report per datagram on an association with status, wire size and payload size, one target report per reply, per-key per-direction sums equal the bytes on the sockets, gathered counters equal the calls",
+   note="association liveness observed on the sockets"),
+ "C18": dict(engine="E+S", tech=E + "; " + S,
+   text="TCP: every address-type byte x fillers, domain lengths, headers truncated at every length, out-of-range and zero chunk lengths, every outcome class, each followed by a well-formed connection that must be served; UDP: the same shapes as datagrams, replies of boundary sizes from IPv4/IPv6/zoned sources, socket-creation failure, shutdown; concurrent hostile+normal connections, injected accept error and listener shutdown with handlers in flight under every schedule within the bound; oracle: no unrecovered or recovered panic, no thread or socket left, StreamServe/Handle return only after their handlers",
+   note="deviation bound 1 (2)"),
  "C06": dict(engine="E", tech=E + " on a virtual clock",
    text="every probe of the grid (random bytes of every length 0..120 and large, every truncation <50 of a valid stream, every single-bit flip of a valid 3-chunk stream, replays) x 4 ciphers x key-list sizes x client behaviours {keep open, FIN, more data at T/2} runs through the real handler; the reference model decides whether it authenticates; oracle: zero bytes written, no dial, close exactly at min(client close, t0+59s) by FIN, AddProbe bytes = bytes sent; post-authentication invalid streams are never actively closed",
    note="virtual time (exact instants, no wall clock); quick tier samples one bit per byte for ciphers 2-4"),
